@@ -136,6 +136,27 @@ impl Rng {
         v.min(max)
     }
 
+    /// a long one-shot length (up to ~4 KiB, at least 9 units): whole units plus a boundary-biased
+    /// tail below one unit.  For thresholds ("messages longer than N blocks") that short
+    /// boundary-biased lengths never reach.
+    pub fn nbytes_long(&mut self, bs: u64) -> u64 {
+        let bs = bs.max(1);
+        let maxu = (4096 / bs).max(12);
+        let units = match self.below(4) {
+            0 => 9 + self.below(56),
+            1 => *self.pick(&[15u64, 16, 17, 31, 32, 33, 63, 64, 65, 127, 128, 129]),
+            _ => 9 + self.below(maxu - 8),
+        }
+        .min(maxu);
+        let tail = match self.below(5) {
+            0 | 1 => 0,
+            2 => 1,
+            3 => bs - 1,
+            _ => self.below(bs),
+        };
+        units * bs + tail
+    }
+
     /// boundary-biased byte length in 0..=max for block size bs
     pub fn nbytes(&mut self, max: u64, bs: u64) -> u64 {
         let v = match self.below(14) {
